@@ -189,6 +189,21 @@ func suiteShimLife(e *vh.Env) {
 						e.Fail("C12:bad-argument-status", fmt.Sprintf("case %d: %s %q answered %d, want 400", i, call.action, call.body, c), i, nil, c, 400)
 					}
 				}
+				// odd but accepted message shapes (`[x]` with a non-string x is queued as a nil message):
+				// any of 200/400 is fine, the agent must survive and keep relaying
+				if !closed && !bclosed {
+					for _, m := range []string{`[5]`, `[null]`, `[["x"]]`, `[{}]`, `[true]`} {
+						c, _ := shimCall(s.h, "data", `[{"id":"`+s.id+`","msg":`+m+`}]`, nil)
+						if !okStatus(c) {
+							e.Fail("C12:bad-status", fmt.Sprintf("case %d: data with msg %s answered %d", i, m, c), i, nil, c, nil)
+						}
+					}
+					before := len(s.be.received())
+					if c := s.data(1); c != 200 || !s.be.waitRecv(before+1) {
+						e.Fail("C12:not-relaying-after-odd-message", fmt.Sprintf("case %d: after one-element non-string messages a valid data post answered %d and the backend received %d new messages", i, c, len(s.be.received())-before), i, nil, nil, nil)
+					}
+					e.Op("data 1", "200")
+				}
 				e.Count("bad-arguments")
 			}
 		}
